@@ -116,6 +116,38 @@ pub fn judge_powf(x: [f64; 2], y: [f64; 2], l: Option<&mut Local>) -> Verdict {
         Ok(r) => [r.hi(), r.lo()],
         Err(m) => return Verdict::fail("no_panic", "powf", &args, format!("panic: {}", m), "a value for valid arguments".into(), "panic"),
     };
+    // every other spelling of the same power (num_traits::Pow with a TwoFloat or an f64 exponent, by value and by
+    // reference; Float::powf) must be the same function: the clauses below then hold at those observation sites too
+    {
+        use num_traits::Pow;
+        let (t, ty, f) = (st::mk(x), st::mk(y), y[0]);
+        let sp = api(|| {
+            let mut v: Vec<(&'static str, st::TF)> = vec![
+                ("Pow::pow(x, y)", Pow::pow(t, ty)),
+                ("Pow::pow(&x, y)", Pow::pow(&t, ty)),
+                ("Pow::pow(x, &y)", Pow::pow(t, &ty)),
+                ("Pow::pow(&x, &y)", Pow::pow(&t, &ty)),
+                ("Float::powf", <st::TF as num_traits::Float>::powf(t, ty)),
+            ];
+            if y[1] == 0.0 {
+                v.push(("Pow::pow(x, y: f64)", Pow::pow(t, f)));
+                v.push(("Pow::pow(&x, y: f64)", Pow::pow(&t, f)));
+                v.push(("Pow::pow(x, &y: &f64)", Pow::pow(t, &f)));
+                v.push(("Pow::pow(&x, &y: &f64)", Pow::pow(&t, &f)));
+            }
+            v
+        });
+        match sp {
+            Err(m) => return Verdict::fail("no_panic", "powf", &args, format!("panic in a Pow / Float::powf spelling: {}", m), "a value for valid arguments".into(), "panic"),
+            Ok(v) => {
+                for (nm, w) in v {
+                    if crate::api::canon(w.hi().to_bits()) != crate::api::canon(r[0].to_bits()) || crate::api::canon(w.lo().to_bits()) != crate::api::canon(r[1].to_bits()) {
+                        return Verdict::fail("powf: trait spelling", "powf", &args, format!("{} = {}", nm, show_dd([w.hi(), w.lo()])), format!("inherent powf = {}", show_dd(r)), "spelling_differs");
+                    }
+                }
+            }
+        }
+    }
     let (vx, vy) = (bfx(x), bfx(y));
     if vx.is_zero() && vy.is_zero() {
         return if is_invalid(r) { Verdict::Pass } else { Verdict::fail("0^0 invalid", "powf", &args, show_dd(r), "an invalid value".into(), "valid_for_domain_error") };
@@ -378,7 +410,9 @@ pub fn run(r: &mut Runner) {
     {
         // double-double neighbourhoods (0..16 ulps and a geometric tail; thorough: 0..80 and tail) of nice values and of
         // their images under every elementary function: pre-images of nice results, where a result may be snapped
-        let nb = crate::fx::nice_neighbourhoods(quick);
+        let mut nb = crate::fx::nice_neighbourhoods(quick);
+        // both sides of the end points of the stated ranges and of the documented internal thresholds
+        nb.extend(crate::fx::edge_points(&[600.0, 700.0, 709.0, 710.0, 750.0, 745.0, 900.0, 1000.0, 1024.0, 1023.0, 1022.0, 1074.0, 1080.0, 0.70, 0.41, 2f64.powi(-8), 2f64.powi(-1000)], quick));
         let nn = nb.len();
         r.notes.push(format!("neighbourhoods of nice pre-images: {} operands ({} base points = integers, simple fractions, multiples of pi, e, ln 2, ln 10, sqrt 2, sqrt 3 and their images under every elementary function; offsets in double-double ulps on both sides)", nn, crate::fx::nice_bases().len()));
         r.par("neighbourhoods of nice pre-images", nn.div_ceil(64), nn as u64, |c, l| {
